@@ -196,6 +196,27 @@ class SymDelta:
 
     __rmul__ = __mul__
 
+    def __abs__(self):
+        return self if bool(self >= timedelta(0)) else -self
+
+    def __truediv__(self, o):
+        # timedelta / timedelta -> float ; timedelta / number is not modelled
+        l = SymDelta._lift(o)
+        if l is None:
+            return NotImplemented
+        num = SymSeconds(self.e, self.vs) if not self.e.is_real() else SymReal(self.e / US, self.vs, False)
+        if isinstance(o, SymDelta):
+            den = o.total_seconds()
+        else:
+            den = td_to_us(o) / US
+        return num / den
+
+    def __floordiv__(self, o):
+        if _is_td(o) and td_to_us(o) > 0:
+            from .intproxy import SymInt
+            return SymInt(self.e / td_to_us(o), self.vs)
+        return NotImplemented
+
     def _sym_plain(self, c):
         v = c._eval(self.e)
         return "timedelta(us=%s)" % v
@@ -350,9 +371,49 @@ class SymTime:
 
     @property
     def year(self):
-        raise Unsupported("SymTime.year")
+        raise Unsupported("SymTime.year / .month / .day (no calendar inverse on symbolic instants)")
 
-    month = day = hour = minute = second = year
+    month = day = year
+
+    @property
+    def hour(self):
+        from .intproxy import SymInt
+        return SymInt((self.e % DAY_US) / (3600 * US), self.vs)
+
+    @property
+    def minute(self):
+        from .intproxy import SymInt
+        return SymInt((self.e % (3600 * US)) / (60 * US), self.vs)
+
+    @property
+    def second(self):
+        from .intproxy import SymInt
+        return SymInt((self.e % (60 * US)) / US, self.vs)
+
+    @property
+    def microsecond(self):
+        from .intproxy import SymInt
+        return SymInt(self.e % US, self.vs)
+
+    def weekday(self):
+        from .intproxy import SymInt          # 2000-01-01 was a Saturday (5)
+        return SymInt(((self.e / DAY_US) + 5) % 7, self.vs)
+
+    def isoweekday(self):
+        return self.weekday() + 1
+
+    def timestamp(self):
+        # naive datetimes are taken as UTC (the sandbox's local zone)
+        return SymSeconds(self.e + 946684800 * US, self.vs)
+
+    def time(self):
+        raise Unsupported("SymTime.time()")
+
+    def isoformat(self, *a, **k):
+        return repr(self)
+
+    def strftime(self, fmt):
+        raise Unsupported("SymTime.strftime")
 
     def _sym_plain(self, c):
         v = c._eval(self.e)
